@@ -147,29 +147,97 @@ def rx_3_4(ctx, rep):
 # RX-5 / RX-6 : encoding declaration
 # ---------------------------------------------------------------------------
 def _detect_encoding_patterns(ctx):
+    """-> (func, window, decl, loop).  decl / window are (method, pattern, call node); ``loop`` is None or
+    (n_lines, advance_pattern) when the declaration pattern is applied at a moving offset inside
+    ``for _ in range(N)`` and the offset advances over ``advance_pattern`` (line-by-line search)."""
     f = ctx.prog.func(UTILS, 'python_bytes_to_unicode.detect_encoding')
+    folder = ctx.folder(UTILS)
     window = decl = None
     order = []
     for n in walk_own(f.node):
-        if isinstance(n, ast.Call) and isinstance(n.func, ast.Attribute) and norm(n.func.value) == 're' and n.args \
-                and isinstance(n.args[0], ast.Constant) and isinstance(n.args[0].value, (bytes, str)):
-            order.append((n.func.attr, n.args[0].value, n))
-    for attr, pat, n in order:
+        if not (isinstance(n, ast.Call) and isinstance(n.func, ast.Attribute)
+                and n.func.attr in ('match', 'search', 'fullmatch', 'findall', 'finditer')):
+            continue
+        if norm(n.func.value) == 're' and n.args and isinstance(n.args[0], ast.Constant) \
+                and isinstance(n.args[0].value, (bytes, str)):
+            order.append((n.func.attr, n.args[0].value, n, False))
+        elif isinstance(n.func.value, ast.Name):
+            name = n.func.value.id
+            # a local assigned once from re.compile(<literal>) (here or in the enclosing function) ...
+            local = []
+            g = f
+            while g is not None:
+                for x in walk_own(g.node):
+                    if isinstance(x, ast.Assign) and any(isinstance(t, ast.Name) and t.id == name for t in x.targets):
+                        local.append(x.value)
+                g = g.outer
+            if local:
+                v = local[0]
+                if len(local) == 1 and isinstance(v, ast.Call) and norm(v.func) == 're.compile' and len(v.args) == 1 \
+                        and not v.keywords and isinstance(v.args[0], ast.Constant) and isinstance(v.args[0].value, (bytes, str)):
+                    order.append((n.func.attr, v.args[0].value, n, True))
+                continue
+            # ... or a module-level compiled pattern
+            try:
+                v = folder.get(name)
+            except AnalysisError:
+                continue
+            if isinstance(v, Rx):
+                order.append((n.func.attr, v.source, n, True))
+    for attr, pat, n, compiled in order:
         text = pat if isinstance(pat, bytes) else pat.encode('latin-1')
         if b'coding' in text:
+            if decl is not None:
+                raise AnalysisError('detect_encoding: more than one declaration pattern (shape not modelled)')
             decl = (attr, pat, n)
         else:
+            if window is not None:
+                raise AnalysisError('detect_encoding: more than one auxiliary pattern (shape not modelled)')
             window = (attr, pat, n)
     if decl is None:
         raise AnalysisError('detect_encoding: declaration pattern not found (anchor changed)')
-    return f, window, decl
+    loop = None
+    dcall = decl[2]
+    # X.match(source, pos): a second positional argument is a moving offset
+    pos_arg = dcall.args[1] if norm(dcall.func.value) != 're' and len(dcall.args) >= 2 else None
+    if pos_arg is not None:
+        if window is None or decl[0] != 'match' or window[0] != 'match':
+            raise AnalysisError('detect_encoding: offset-based search in a shape that is not modelled')
+        loop_node = dcall
+        while loop_node is not None and not isinstance(loop_node, ast.For):
+            loop_node = getattr(loop_node, '_parent', None)
+        it = loop_node.iter if loop_node is not None else None
+        if not (isinstance(it, ast.Call) and norm(it.func) == 'range' and len(it.args) == 1
+                and isinstance(it.args[0], ast.Constant) and isinstance(it.args[0].value, int)):
+            raise AnalysisError('detect_encoding: offset-based search outside `for _ in range(N)` (shape not modelled)')
+        wcall = window[2]
+        same_pos = len(wcall.args) >= 2 and norm(wcall.args[1]) == norm(pos_arg) and isinstance(pos_arg, ast.Name)
+        # the offset only advances to the end of the auxiliary match
+        advances = []
+        for x in walk_own(f.node):
+            if isinstance(x, (ast.Assign, ast.AugAssign)):
+                tg = x.targets if isinstance(x, ast.Assign) else [x.target]
+                if any(isinstance(t, ast.Name) and isinstance(pos_arg, ast.Name) and t.id == pos_arg.id for t in tg):
+                    advances.append(x)
+        wvar = None
+        st = getattr(wcall, '_parent', None)
+        if isinstance(st, ast.Assign) and len(st.targets) == 1 and isinstance(st.targets[0], ast.Name):
+            wvar = st.targets[0].id
+        ok_adv = same_pos and wvar is not None and all(
+            isinstance(x, ast.Assign) and (norm(x.value) == '%s.end()' % wvar or norm(x.value) == '0') for x in advances) \
+            and any(norm(x.value) == '%s.end()' % wvar for x in advances)
+        if not ok_adv:
+            raise AnalysisError('detect_encoding: offset arithmetic of the line-by-line search is not modelled')
+        loop = (it.args[0].value, window[1])
+        window = None
+    return f, window, decl, loop
 
 
 def rx_5_6(ctx, rep):
     rep.rule('RX-5', "every window of two lines in which parso's search finds a coding declaration is one in which "
                      "CPython's cookie_re/blank_re find one (language inclusion, bytes)")
     rep.rule('RX-6', 'the two-line window accepts an unterminated last line')
-    f, window, decl = _detect_encoding_patterns(ctx)
+    f, window, decl, loop = _detect_encoding_patterns(ctx)
     refs = ctx.reference_versions()
     if not refs:
         raise AnalysisError('no CPython reference sources under /root/.pyenv/versions')
@@ -194,7 +262,12 @@ def rx_5_6(ctx, rep):
     attr, pat, node = decl
     psrc = pat if isinstance(pat, bytes) else pat.encode('latin-1')
     anyb = rb'[\x00-\xff]*'
-    if attr == 'search':
+    if loop is not None:
+        # line-by-line search: the declaration pattern is tried at the offset, which advances over the auxiliary pattern
+        n_lines, adv = loop
+        adv = adv if isinstance(adv, bytes) else adv.encode('latin-1')
+        A = rb'(?:' + adv + rb'){0,%d}(?:' % (n_lines - 1) + psrc + rb')' + anyb
+    elif attr == 'search':
         A = anyb + rb'(?:' + psrc + rb')' + anyb
     elif attr == 'match':
         A = rb'(?:' + psrc + rb')' + anyb
@@ -209,7 +282,7 @@ def rx_5_6(ctx, rep):
            'text in which parso finds an encoding declaration and CPython does not' if w is not None else '',
            witness=w)
     if window is None and attr == 'match':
-        # single anchored pattern: it must also find every declaration CPython honours
+        # anchored pattern(s): it must also find every declaration CPython honours
         w2 = rx.included(nB, nA)
         rep.ob('RX-5', UTILS, 'python_bytes_to_unicode.detect_encoding', 'declaration pattern finds every CPython declaration',
                w2 is None, 'text in which CPython honours a coding declaration that parso does not find', witness=w2)
